@@ -162,37 +162,79 @@ Example use_then_declare_example :
 Proof. vm_compute. reflexivity. Qed.
 
 (* ---- elision of names bound by an outer let of the same Python scope.
-   ScopeLet.define_nonlocal removes from the statement every name an outer let of the same
-   function binds (the name already means that let variable).  It does so while iterating over
-   the list it mutates, so after removing a name the next one is skipped. ---- *)
-Definition let_elision_full : Prop :=
-  forall s0 s1 rest c l stk' c' x,
-    s_kind s0 = KLet -> s_kind s1 = KLet -> l < length c ->
-    define_nonlocal (s0 :: s1 :: rest) c l RNonlocal = inl (stk', c') ->
-    In x (cell_names c l) -> lookup x (s_bindings s1) <> None ->
-    ~ In x (cell_names c' l).
+   ScopeLet.define_nonlocal removes from the statement every name an outer let of the same function
+   binds (the name already means that let variable) and nothing else.  The loop runs over a copy of
+   the list (since the fix of the list-mutation defect), so no name is skipped. ---- *)
+Fixpoint count (x : name) (l : list name) : nat :=
+  match l with [] => 0 | y :: r => (if text_eqb x y then 1 else 0) + count x r end.
+
+Lemma count_In x l : count x l > 0 <-> In x l.
+Proof.
+  induction l as [|y r IH]; cbn [count In]; [split; [lia | intros []]|].
+  destruct (text_eqb x y) eqn:E.
+  - apply text_eqb_eq in E. subst. split; [intros _; left; reflexivity | lia].
+  - split.
+    + intros H. right. apply IH. lia.
+    + intros [->|H]; [rewrite (proj2 (text_eqb_eq x x) eq_refl) in E; discriminate | apply IH in H; lia].
+Qed.
+
+Lemma count_remove_first_same x l : count x (remove_first x l) = count x l - 1.
+Proof.
+  induction l as [|y r IH]; [reflexivity|]. cbn [remove_first count]. destruct (text_eqb x y) eqn:E; [lia|].
+  cbn [count]. rewrite E, IH. reflexivity.
+Qed.
+
+Lemma count_remove_first_other x y l : text_eqb x y = false -> count x (remove_first y l) = count x l.
+Proof.
+  intros H. induction l as [|z r IH]; [reflexivity|]. cbn [remove_first count]. destruct (text_eqb y z) eqn:E.
+  - apply text_eqb_eq in E. subst z. rewrite H. reflexivity.
+  - cbn [count]. rewrite IH. reflexivity.
+Qed.
+
+Lemma elide_fold_count P x : forall todo acc,
+  count x (fold_left (fun acc y => if P y then remove_first y acc else acc) todo acc)
+  = if P x then count x acc - count x todo else count x acc.
+Proof.
+  induction todo as [|y r IH]; intros acc; cbn [fold_left count]; [destruct (P x); lia|].
+  rewrite IH. destruct (P y) eqn:Py.
+  - destruct (text_eqb x y) eqn:E.
+    + apply text_eqb_eq in E. subst y. rewrite Py, count_remove_first_same. lia.
+    + rewrite (count_remove_first_other x y acc E). destruct (P x); lia.
+  - destruct (text_eqb x y) eqn:E; [apply text_eqb_eq in E; subst y; rewrite Py|]; destruct (P x); try lia; reflexivity.
+Qed.
+
+(* every name the let binds is gone, with all its occurrences; every other name stays, as often as it was written *)
+Theorem elide_spec P names x : count x (elide P names) = if P x then 0 else count x names.
+Proof. unfold elide. rewrite elide_fold_count. destruct (P x); lia. Qed.
+
+Corollary let_elision P names x : In x (elide P names) <-> In x names /\ P x = false.
+Proof.
+  rewrite <- !count_In, elide_spec. destruct (P x); split; try lia.
+  - intros [_ H]. discriminate.
+  - intros H. split; [exact H | reflexivity].
+  - intros [H _]. exact H.
+Qed.
+
+(* this is what ScopeLet.define_nonlocal hands on to the enclosing scopes *)
+Lemma let_define_nonlocal_elides s rest c l :
+  s_kind s = KLet ->
+  let_define_nonlocal (s :: rest) c l RNonlocal false =
+    match let_define_nonlocal rest
+            (set_cell c l (elide (fun x => match lookup x (s_bindings s) with Some _ => true | None => false end)
+                                 (cell_names c l))) l RNonlocal false with
+    | inl (rest', c') => inl (s :: rest', c')
+    | inr e => inr e
+    end.
+Proof. intros K. cbn [let_define_nonlocal]. rewrite K. reflexivity. Qed.
 
 Definition el_a : name := [97%N]. Definition el_b : name := [98%N].
 Definition el_outer := with_bindings (new_scope 2 KLet) [(el_a, [97%N; 49%N]); (el_b, [98%N; 50%N])].
 Definition el_inner := new_scope 3 KLet.
 Definition el_fn := new_scope 1 KFn.
 
-Theorem let_elision_refuted : ~ let_elision_full.
-Proof.
-  intros H.
-  specialize (H el_inner el_outer [el_fn; new_scope 0 KGlobal] [[el_a; el_b]] 0).
-  destruct (define_nonlocal (el_inner :: el_outer :: [el_fn; new_scope 0 KGlobal]) [[el_a; el_b]] 0 RNonlocal)
-    as [[stk' c']|e] eqn:E; [|vm_compute in E; discriminate].
-  specialize (H stk' c' el_b eq_refl eq_refl (Nat.lt_0_succ 0) eq_refl).
-  vm_compute in E. inversion E; subst. apply H.
-  - right. left. reflexivity.
-  - vm_compute. discriminate.
-  - vm_compute. left. reflexivity.
-Qed.
-
-(* a single name is elided *)
-Example let_elision_single :
-  match define_nonlocal (el_inner :: el_outer :: [el_fn; new_scope 0 KGlobal]) [[el_b]] 0 RNonlocal with
+(* the former witness of the defect: (let [a 1 b 2] (let [c 3] (nonlocal a b) ...)) -- both names are elided *)
+Example let_elision_former_witness :
+  match define_nonlocal (el_inner :: el_outer :: [el_fn; new_scope 0 KGlobal]) [[el_a; el_b]] 0 RNonlocal with
   | inl (_, c') => cell_names c' 0 = []
   | inr _ => False
   end.
